@@ -59,9 +59,63 @@ def r11_1(ctx: Ctx):
         own = set(f.cls.methods.values())
         return all(c is sd or c in sd_helpers or c in own
                    for m_ in own for c in roles.callers_of(m_))
+    CLOCKS = ('datetime.', 'time.perf_counter', 'time.time', 'time.monotonic', 'time.process_time')
+
+    def sealed_timer(f) -> bool:
+        # a stopwatch class: every value derived from its clock reads ends in attributes that no routine of the search
+        # path outside the class reads, and no caller uses what its methods return
+        if f.cls is None or f.cls in (sd.cls,) or not f.cls.module.name.startswith('iOpt.'):
+            return False
+        own = [m_ for m_ in f.cls.methods.values() if m_.kind == 'function']
+        tainted_attrs, tainted_ret = set(), set()
+        for _ in range(3):
+            for m_ in own:
+                loc = set()
+                def tainted(e):
+                    for x in ast.walk(e):
+                        if isinstance(x, ast.Call):
+                            if any(isinstance(c_, str) and c_.startswith(CLOCKS) for c_ in ctx.pta.ext_callees(m_, x)):
+                                return True
+                            if isinstance(x.func, ast.Attribute) and x.func.attr in tainted_ret:
+                                return True
+                        if isinstance(x, ast.Name) and x.id in loc:
+                            return True
+                        if isinstance(x, ast.Attribute) and isinstance(x.ctx, ast.Load) and x.attr in tainted_attrs:
+                            return True
+                    return False
+                for _i in range(3):
+                    for st in ast.walk(m_.node):
+                        if isinstance(st, (ast.Assign, ast.AugAssign)) and tainted(st.value):
+                            for t in (st.targets if isinstance(st, ast.Assign) else [st.target]):
+                                if isinstance(t, ast.Name):
+                                    loc.add(t.id)
+                                elif isinstance(t, ast.Attribute):
+                                    tainted_attrs.add(t.attr)
+                        if isinstance(st, ast.Return) and st.value is not None and tainted(st.value):
+                            tainted_ret.add(m_.name)
+        if '__exit__' in tainted_ret or '__enter__' in tainted_ret:
+            return False            # the with statement itself consumes these results
+        for g in funcs:
+            gf = ctx.ix.funcs.get(g) if isinstance(g, str) else g
+            if gf is None or gf.cls is f.cls or gf.kind != 'function':
+                continue
+            for x in ast.walk(gf.node):
+                if isinstance(x, ast.Attribute) and isinstance(x.ctx, ast.Load) and x.attr in tainted_attrs and \
+                        not isinstance(getattr(x, '_parent_aug', None), ast.AugAssign):
+                    return False
+                if isinstance(x, ast.Call) and isinstance(x.func, ast.Attribute) and x.func.attr in tainted_ret and \
+                        any(m_ in ctx.pta.internal_callees(gf, x) for m_ in own):
+                    # the result must be discarded: the call is an expression statement
+                    if not any(isinstance(st, ast.Expr) and st.value is x for st in ast.walk(gf.node)):
+                        return False
+        return True
     for f, node, d in sites:
         if d.startswith('datetime.') and (f is sd or f in sd_helpers or timing_utility(f)):
             clock.append((f, node, d))
+            continue
+        if d.startswith(CLOCKS) and sealed_timer(f):
+            ctx.ok(rid, f.short, f'{d}: the value stays inside the stopwatch class {f.cls.name} (attributes nobody on the '
+                                 f'search path reads)', f.loc(node))
             continue
         ctx.fail(rid, f.short, f.loc(node), f'{d} is used on the search path: the trial sequence is not a function of '
                                             f'the problem and r alone', key=f'{rid}::{f.module.relpath}::{f.short}::{d}')
